@@ -6,6 +6,16 @@ ids = [json.loads(l)["id"] for l in open(os.path.join(HERE, "properties.jsonl"))
 
 # id -> (category, technique, level text, level note, design ref)
 CLAIMED = {
+ "C07": ("exploration",
+         "stateful property-based testing biased to joins, with mismatch injection (foreign Welcome, wrong / truncated / flipped tree, stale GroupInfo) and key-package store inspection",
+         "Generated histories with by-value/by-reference adds, several joiners per commit, both Welcome and tree delivery options, external commits and returning members; joiners must agree with the members, exchange messages and commit at once; the first write removes exactly the used key package (none for last-resort); every mismatched Welcome / tree / GroupInfo combination must fail.",
+         "One listed known finding (returning member whose storage still holds the records of its earlier membership).",
+         "DESIGN.md §4 C07"),
+ "C10": ("exploration",
+         "differential property-based testing of the send-side filter against strict receivers: generated multisets of valid and invalid-by-construction proposals, by reference and by value, with an independent RFC 9420 §12.2 set-rule checker",
+         "For generated multisets of up to 8 proposals over 16 valid/invalid kinds, every commit the library builds must be accepted by all members holding the referenced proposals with identical applied/unused sets, must satisfy the RFC set rules and contain nothing invalid by construction; invalid by-value proposals must make the build fail without changing the committer; valid by-value sets must not be refused because of cached offenders.",
+         "Receiver-side rejection of commits forged by a dishonest member is covered by C03's insider model.",
+         "DESIGN.md §4 C10"),
  "C05": ("exploration",
          "model-based property testing of delivery schedules (permutation / duplication / gaps / reload) against an exactly-once model, plus a recording crypto provider checking global (key, nonce) uniqueness",
          "Generated multi-sender streams on both ratchets with gaps up to and beyond the 1024 window and per-receiver schedules; every delivery's outcome is predicted by an explicit consumed-generation model; all AEAD (key, nonce) pairs of all members are pairwise distinct and application/handshake keys are disjoint; clones of a sender never share a nonce.",
